@@ -1,0 +1,11 @@
+//go:build verif && vfs
+
+package litestream
+
+import "context"
+
+// VerifPoll runs exactly one poll of the replica (what one tick of the VFS
+// file's monitor does), so that the simulator decides the poll points.
+func (f *VFSFile) VerifPoll(ctx context.Context) error {
+	return f.pollReplicaClient(ctx)
+}
